@@ -19,9 +19,11 @@ MC = {
 }
 TRACE = {
     # tier: list of (cap, keys, n events, number of traces)
-    "quick": [(4, 7, 2000, 3), (16, 24, 3000, 2), (64, 90, 3000, 1), (100, 140, 3000, 2)],
+    # (n = 0: the directed "tail" workload - the only clean page at depth 1, 2, 2^k-1, 2^k, 2^k+1, ..., cap from the cold end of a
+    # cache otherwise full of unsaved pages; capacities beyond any round number an eviction walk might stop at)
+    "quick": [(4, 7, 2000, 3), (16, 24, 3000, 2), (64, 90, 3000, 1), (100, 140, 3000, 2), (600, 0, 0, 1)],
     "thorough": [(2, 4, 4000, 6), (4, 7, 5000, 8), (16, 24, 10000, 6), (64, 90, 10000, 4), (3, 12, 5000, 4), (128, 180, 10000, 3),
-                 (300, 400, 6000, 2)],
+                 (300, 400, 6000, 2), (600, 0, 0, 1), (1100, 0, 0, 1)],
 }
 
 
@@ -89,7 +91,7 @@ def run(ctx):
             for i in range(cnt):
                 out = os.path.join(tdir, "t-%d-%d.ndjson" % (cap, i))
                 got = []
-                pool.run_all([dict(mode="trace", cap=cap, keys=keys, n=n, seed=rng.randrange(1 << 30), out=out)],
+                pool.run_all([dict(mode=("trace" if n else "tail"), cap=cap, keys=keys, n=n, seed=rng.randrange(1 << 30), out=out)],
                              lambda req, r: got.append(r))
                 if not got or not got[0]["ok"]:
                     raise vlib.Undecided("trace driver failed: %r" % got)
@@ -99,7 +101,7 @@ def run(ctx):
             cfg = open(os.path.join(vlib.SPEC, "LruTrace.cfg")).read().replace("Cap = 8", "Cap = %d" % cap)
             outs = []
             res = vlib.run_tlc(ctx, "LruTrace", "LruTrace.cfg", cfg_text=cfg, workers=1, timeout=900, tag=str(cap),
-                               files={"trace.ndjson": trace}, on_scn=lambda k, o: outs.append(o))
+                               files={"trace.ndjson": trace}, on_scn=lambda k, o: outs.append(o), xss=("1g" if cap > 200 else None))
             reached = outs[-1]["reached"] if outs else None
             if res.status == "ok":
                 cov["traces_validated_against_impl"] += cnt
